@@ -23,6 +23,7 @@ MOD = "bec2format.bec2file"
 ASSUMPTIONS = common.ASSUMPTIONS_AES + ASSUMPTIONS_ECC + [
     "hashlib.sha256 a function of its input (32 bytes)",
     "independent ECIES = spec/ecmath.py + hashlib + spec/aes197.py (not OpenSSL)",
+    "the published keys are those of the pinned tree's DEFAULT_PUBLIC_KEYS (pinned by sha256 per selector)",
 ]
 P256_P = 0xffffffff00000001000000000000000000000000ffffffffffffffffffffffff
 P256_A = -3
@@ -31,6 +32,12 @@ P256_N = 0xffffffff00000000ffffffffffffffffbce6faada7179e84f3b9cac2fc632551
 P256_G = (0x6b17d1f2e12c4247f8bce6e563a440f277037d812deb33a0f4a13945d898c296,
           0x4fe342e2fe1a7f9b8ee7eb4a7c0f9e162bce33576b315ececbb6406837bf51f5)
 HEADER = bytes.fromhex("3059301306072A8648CE3D020106082A8648CE3D03010703420004")
+PUBLISHED_SHA256 = {      # sha256 of the DER public keys published for the key selectors 0..3 (pinned tree)
+    0: "135540a2d14cdbf20bafde4a186802d2f9d8de21d1d707e4aee973a520d5c425",
+    1: "aa6d91c939a066bebea8dbfd3a0214d1c0838a6eeae1b193ae9c485eced5cae8",
+    2: "a835c06c9edca3dd69f21a33b8b627101d9a879e9526be2ad481e294f7711edc",
+    3: "9b53353844dce3a54b23b2995b582c8f543dc45c34a0f926b39088d6b066f769",
+}
 
 
 @proof("C09/published-keys", functions=[(MOD, "EccEncryptor")], family=lambda s, t: [dict()])
@@ -44,6 +51,11 @@ def published_keys(vc):
         x, y = int.from_bytes(der[27:59], "big"), int.from_bytes(der[59:91], "big")
         vc.ground("key[%d].on-curve" % sel, x < P256_P and y < P256_P and EM.on_curve((x, y), P256_A, P256_B, P256_P))
     vc.ground("keys-distinct", len({bytes(v) for v in keys.values()}) == 4)
+    # "BALTECH's published public key for that selector": the only publication is the table of the pinned tree, so the
+    # association selector -> key is pinned here by digest (an intended key rotation has to update this contract)
+    import hashlib
+    for sel, der in keys.items():
+        vc.ground("key[%d]=the-published-key-of-that-selector" % sel, hashlib.sha256(bytes(der)).hexdigest() == PUBLISHED_SHA256[sel])
     vc.cover("keys")
 
 
